@@ -12,7 +12,8 @@
 
     [spec_ok]: the property's clauses evaluated on the implementation's observation
     alone: hold intervals of live holders are disjoint; after a holder is killed a
-    persistent waiter acquires within the bound; a cancelled blocked Lock returns promptly. *)
+    persistent waiter acquires within the bound; a cancelled blocked Lock returns promptly;
+    a free lock is obtained at once. *)
 From CM Require Import Lib.Str Lib.Wire Lib.SafeSteps Gen.Consts Safe.Model FileLock.Model.
 Open Scope Z_scope.
 
@@ -144,7 +145,36 @@ Definition cancel_ok (c : case) : bool :=
       end
     else true) (cevents c).
 
-Definition spec_ok (c : case) : bool := mutex_ok c && recovers_ok c && cancel_ok c.
+(** a free lock is obtained at once: in a scenario without a pre-made lock file and without
+    kills, a thread all of whose contenders either finished (Lock failed, or Unlock called)
+    at least [free_margin] before it called Lock, or call Lock only [free_prompt] after it,
+    acquires within [free_prompt] (well below the poll interval) *)
+Definition free_prompt : Z := 800000000.
+Definition free_margin : Z := 100000000.
+Definition finished_before (c : case) (o' : ob) (t : Z) : bool :=
+  if oout o' =? 0 then match first_time (cevents c) 1 (otid o') with Some u => u + free_margin <=? t | None => false end
+  else if oout o' =? -1 then false
+  else otime o' + free_margin <=? t.
+Definition free_for (c : case) (o : ob) (st : Z) : bool :=
+  forallb (fun e => if ekind e =? 0 then
+                      (ea e =? otid o) || (st + free_prompt <? etime e) ||
+                      match find (fun o' => otid o' =? ea e) (cobs c) with
+                      | Some o' => finished_before c o' st
+                      | None => false
+                      end
+                    else true) (cevents c).
+Definition free_ok (c : case) : bool :=
+  match cinit c with
+  | Some _ => true
+  | None =>
+      existsb (fun e => ekind e =? 2) (cevents c) ||
+      forallb (fun o => match first_time (cevents c) 0 (otid o) with
+                        | Some st => negb (free_for c o st) || ((oout o =? 0) && (otime o - st <=? free_prompt))
+                        | None => true
+                        end) (cobs c)
+  end.
+
+Definition spec_ok (c : case) : bool := mutex_ok c && recovers_ok c && cancel_ok c && free_ok c.
 
 (** ** "distinct names never block each other": cases of kind 1
 
@@ -198,7 +228,8 @@ Definition explain_line (l : list Z) : list Z :=
       match decode get_case r with
       | Some c =>
           flat_map (fun x => [Z.of_nat (fst (fst x)); snd (fst x); snd x / 1000000]) (model_outlog c 0) ++
-          [-7; (if mutex_ok c then 1 else 0); (if recovers_ok c then 1 else 0); (if cancel_ok c then 1 else 0)]
+          [-7; (if mutex_ok c then 1 else 0); (if recovers_ok c then 1 else 0); (if cancel_ok c then 1 else 0);
+           (if free_ok c then 1 else 0)]
       | None => []
       end
   | 1 :: r =>
